@@ -881,6 +881,19 @@ func (s *stakingSC) insertAfterLastJailed(
 			PreviousKey:  inWaitingListKey,
 			NextKey:      nextKey,
 		}
+		if len(nextKey) > 0 {
+			// the former first element now has a predecessor
+			previousFirstElement, err := s.getWaitingListElement(nextKey)
+			if err != nil {
+				return err
+			}
+			previousFirstElement.PreviousKey = make([]byte, len(inWaitingListKey))
+			copy(previousFirstElement.PreviousKey, inWaitingListKey)
+			err = s.saveWaitingListElement(nextKey, previousFirstElement)
+			if err != nil {
+				return err
+			}
+		}
 		return s.saveElementAndList(inWaitingListKey, elementInWaiting, waitingList)
 	}
 
